@@ -10,3 +10,39 @@ Hash/Sha.vos Hash/Sha.vok Hash/Sha.required_vos: Hash/Sha.v Base/Prelude.vos Has
 Hash/ShaTest.vo Hash/ShaTest.glob Hash/ShaTest.v.beautified Hash/ShaTest.required_vo: Hash/ShaTest.v Base/Prelude.vo Hash/Sha.vo
 Hash/ShaTest.vio: Hash/ShaTest.v Base/Prelude.vio Hash/Sha.vio
 Hash/ShaTest.vos Hash/ShaTest.vok Hash/ShaTest.required_vos: Hash/ShaTest.v Base/Prelude.vos Hash/Sha.vos
+Generated/Tables.vo Generated/Tables.glob Generated/Tables.v.beautified Generated/Tables.required_vo: Generated/Tables.v 
+Generated/Tables.vio: Generated/Tables.v 
+Generated/Tables.vos Generated/Tables.vok Generated/Tables.required_vos: Generated/Tables.v 
+Generated/ErrTexts.vo Generated/ErrTexts.glob Generated/ErrTexts.v.beautified Generated/ErrTexts.required_vo: Generated/ErrTexts.v 
+Generated/ErrTexts.vio: Generated/ErrTexts.v 
+Generated/ErrTexts.vos Generated/ErrTexts.vok Generated/ErrTexts.required_vos: Generated/ErrTexts.v 
+Generated/Registry.vo Generated/Registry.glob Generated/Registry.v.beautified Generated/Registry.required_vo: Generated/Registry.v 
+Generated/Registry.vio: Generated/Registry.v 
+Generated/Registry.vos Generated/Registry.vok Generated/Registry.required_vos: Generated/Registry.v 
+Generated/JsExports.vo Generated/JsExports.glob Generated/JsExports.v.beautified Generated/JsExports.required_vo: Generated/JsExports.v 
+Generated/JsExports.vio: Generated/JsExports.v 
+Generated/JsExports.vos Generated/JsExports.vok Generated/JsExports.required_vos: Generated/JsExports.v 
+Spec/Rfc4648.vo Spec/Rfc4648.glob Spec/Rfc4648.v.beautified Spec/Rfc4648.required_vo: Spec/Rfc4648.v Base/Prelude.vo
+Spec/Rfc4648.vio: Spec/Rfc4648.v Base/Prelude.vio
+Spec/Rfc4648.vos Spec/Rfc4648.vok Spec/Rfc4648.required_vos: Spec/Rfc4648.v Base/Prelude.vos
+Model/Errors.vo Model/Errors.glob Model/Errors.v.beautified Model/Errors.required_vo: Model/Errors.v Base/Prelude.vo Generated/ErrTexts.vo
+Model/Errors.vio: Model/Errors.v Base/Prelude.vio Generated/ErrTexts.vio
+Model/Errors.vos Model/Errors.vok Model/Errors.required_vos: Model/Errors.v Base/Prelude.vos Generated/ErrTexts.vos
+Model/Decoder.vo Model/Decoder.glob Model/Decoder.v.beautified Model/Decoder.required_vo: Model/Decoder.v Base/Prelude.vo
+Model/Decoder.vio: Model/Decoder.v Base/Prelude.vio
+Model/Decoder.vos Model/Decoder.vok Model/Decoder.required_vos: Model/Decoder.v Base/Prelude.vos
+Model/Derive.vo Model/Derive.glob Model/Derive.v.beautified Model/Derive.required_vo: Model/Derive.v Base/Prelude.vo Hash/Sha.vo Generated/Tables.vo
+Model/Derive.vio: Model/Derive.v Base/Prelude.vio Hash/Sha.vio Generated/Tables.vio
+Model/Derive.vos Model/Derive.vok Model/Derive.required_vos: Model/Derive.v Base/Prelude.vos Hash/Sha.vos Generated/Tables.vos
+Model/Otp.vo Model/Otp.glob Model/Otp.v.beautified Model/Otp.required_vo: Model/Otp.v Base/Prelude.vo Hash/Sha.vo Generated/Tables.vo Model/Decoder.vo Model/Derive.vo
+Model/Otp.vio: Model/Otp.v Base/Prelude.vio Hash/Sha.vio Generated/Tables.vio Model/Decoder.vio Model/Derive.vio
+Model/Otp.vos Model/Otp.vok Model/Otp.required_vos: Model/Otp.v Base/Prelude.vos Hash/Sha.vos Generated/Tables.vos Model/Decoder.vos Model/Derive.vos
+Model/Ocra.vo Model/Ocra.glob Model/Ocra.v.beautified Model/Ocra.required_vo: Model/Ocra.v Base/Prelude.vo Hash/Sha.vo Generated/Tables.vo Model/Errors.vo Model/Decoder.vo Model/Derive.vo Model/Otp.vo
+Model/Ocra.vio: Model/Ocra.v Base/Prelude.vio Hash/Sha.vio Generated/Tables.vio Model/Errors.vio Model/Decoder.vio Model/Derive.vio Model/Otp.vio
+Model/Ocra.vos Model/Ocra.vok Model/Ocra.required_vos: Model/Ocra.v Base/Prelude.vos Hash/Sha.vos Generated/Tables.vos Model/Errors.vos Model/Decoder.vos Model/Derive.vos Model/Otp.vos
+Model/Runner.vo Model/Runner.glob Model/Runner.v.beautified Model/Runner.required_vo: Model/Runner.v Base/Prelude.vo Hash/Sha.vo Generated/Tables.vo Model/Errors.vo Model/Decoder.vo Model/Derive.vo Model/Otp.vo Model/Ocra.vo
+Model/Runner.vio: Model/Runner.v Base/Prelude.vio Hash/Sha.vio Generated/Tables.vio Model/Errors.vio Model/Decoder.vio Model/Derive.vio Model/Otp.vio Model/Ocra.vio
+Model/Runner.vos Model/Runner.vok Model/Runner.required_vos: Model/Runner.v Base/Prelude.vos Hash/Sha.vos Generated/Tables.vos Model/Errors.vos Model/Decoder.vos Model/Derive.vos Model/Otp.vos Model/Ocra.vos
+Extract/Extract.vo Extract/Extract.glob Extract/Extract.v.beautified Extract/Extract.required_vo: Extract/Extract.v Model/Runner.vo
+Extract/Extract.vio: Extract/Extract.v Model/Runner.vio
+Extract/Extract.vos Extract/Extract.vok Extract/Extract.required_vos: Extract/Extract.v Model/Runner.vos
